@@ -29,6 +29,21 @@ EXTENDS Integers, Sequences, FiniteSets, TLC
 Empty == 0
 Bad   == "x"     \* an event the syncer must discard (eon / gas limit / expiry > MaxInt64, invalid definition)
 
+(* Events with value classes: the token  k_e_g  is an event of key k whose eon has class e and whose
+   second numeric field (gas limit / timestamp / expiration block) has class g:
+     ok  an ordinary value     max  2^63-1 (fits)     p63  2^63     u64  2^64-1
+     wrap  2^64 + ordinary (its low 64 bits look fine)     top  2^256-1                       (gas limit only)
+   The plain token k is k_ok_ok.  filterEvents / ProcessEvents must discard an event unless BOTH
+   fields fit into an int64; the stored row must carry the values (the projection names a row by
+   key and the classes of the STORED values). *)
+EonCl == {"ok", "max", "p63", "u64"}
+F2Cl  == {"ok", "max", "p63", "u64", "wrap", "top"}
+FitCl == {"ok", "max"}
+ClassKeys == {"k1", "k2", "k3"}
+ClassTok(k, e, g) == k \o "_" \o e \o "_" \o g
+BadToks == {Bad} \cup {ClassTok(t[1], t[2], t[3]) : t \in {u \in ClassKeys \X EonCl \X F2Cl : u[2] \notin FitCl \/ u[3] \notin FitCl}}
+Admissible(tok) == tok \notin BadToks
+
 St(sy, so) == [synced |-> sy, stored |-> so]
 Sy(has, n, hs) == [has |-> has, num |-> n, hash |-> hs]
 NoRow == Sy(FALSE, 0, Empty)
@@ -72,7 +87,7 @@ Row(blk, b, k) == [key |-> k, num |-> blk[b].num, bid |-> b]
 (* what FilterLogs + filterEvents return for the block range [lo, hi] of the chain ending in h
    (events sit in the last block of their record; runs carry none) *)
 EventsIn(blk, h, lo, hi) ==
-    UNION {{Row(blk, b, k) : k \in blk[b].evs \ {Bad}} :
+    UNION {{Row(blk, b, k) : k \in {e \in blk[b].evs : Admissible(e)}} :
            b \in {c \in AncSelf(blk, h) : blk[c].num >= lo /\ blk[c].num <= hi /\ blk[c].num <= NumOf(blk, h)}}
 
 (* INSERT ... ON CONFLICT (key) DO UPDATE *)
